@@ -101,6 +101,42 @@ func (pg *Program) Redirect(from, toPkg, toName string) error {
 	return nil
 }
 
+// HasFunction reports whether the function or method whose String() is key exists:
+// "pkg/path.Func", "(pkg/path.T).Method" or "(*pkg/path.T).Method".
+func (pg *Program) HasFunction(key string) bool {
+	if strings.HasPrefix(key, "(") {
+		closing := strings.Index(key, ").")
+		if closing < 0 {
+			return false
+		}
+		recv, method := strings.TrimPrefix(key[1:closing], "*"), key[closing+2:]
+		dot := strings.LastIndex(recv, ".")
+		if dot < 0 {
+			return false
+		}
+		p := pg.Package(recv[:dot])
+		if p == nil {
+			return false
+		}
+		t := p.Type(recv[dot+1:])
+		if t == nil {
+			return false
+		}
+		named := t.Type()
+		for _, typ := range []types.Type{named, types.NewPointer(named)} {
+			ms := pg.Prog.MethodSets.MethodSet(typ)
+			for i := 0; i < ms.Len(); i++ {
+				if ms.At(i).Obj().Name() == method {
+					return true
+				}
+			}
+		}
+		return false
+	}
+	dot := strings.LastIndex(key, ".")
+	return dot >= 0 && pg.lookupFunc(key[:dot], key[dot+1:]) != nil
+}
+
 func (pg *Program) ClearRedirects() { pg.redirects = map[string]*ssa.Function{} }
 
 func (pg *Program) newInterp() *interpreter {
